@@ -12,7 +12,7 @@ import (
 
 func init() {
 	PropertyText["C06"] = [2]string{
-		"Decides the bounds that make the work per seed finite: a redirect child is created only below the --max-redirect guard, carries its parent's counter + 1 and its parent's hops, and has a single creation site (R-REDIRECT-BOUND); asset children are created only when domains-crawl is on or the depth without redirections is ≤ 2 (R-DEPTH-CUT); the fetch loop's induction variable goes 0,1,2… up to MaxRetry with no other update, and client.Do only happens inside it (R-RETRY-BOUND); outlinks get parent hops + 1 (or 0 only under domainscrawl.Match), assets get the parent's hops, extraction of outlinks requires hops < MaxHops or domains crawl (R-HOPS); domainscrawl.Match is a pure function of the URL and the configured patterns (R-MATCH-PURE); the WARC client never follows redirects itself (R-NO-AUTO-REDIRECT).",
+		"Decides the bounds that make the work per seed finite: a redirect child is created only below the --max-redirect guard, carries its parent's counter + 1 and its parent's hops, and has a single creation site (R-REDIRECT-BOUND); asset children are created only when domains-crawl is on or the depth without redirections is ≤ 2 (R-DEPTH-CUT); the fetch loop's induction variable goes 0,1,2… up to MaxRetry with no other update, and client.Do only happens inside it (R-RETRY-BOUND); outlinks get parent hops + 1 (or 0 only under domainscrawl.Match), assets get the parent's hops, extraction of outlinks requires hops < MaxHops or domains crawl (R-HOPS); domainscrawl.Match is a pure function of the URL and the configured patterns (R-MATCH-PURE); the WARC client never follows redirects itself (R-NO-AUTO-REDIRECT). NormalizeURL writes only the text of the URL it is given, so the redirect and hop counters survive normalisation (R-NORMALIZE-KEEPS-COUNTERS); the domains-crawl matcher is only switched on for a non-empty pattern list (R-DOMAINS-ENABLED).",
 		"Not decided: that every seed finishes after a bounded number of passes as a whole (composition of these bounds with the tree semantics of C11 is argued, not checked); time spent in back-off sleeps.",
 	}
 	register(&core.Rule{ID: "R-REDIRECT-BOUND", Props: []string{"C06", "C01"}, Doc: "the only AddChild(…, ItemGotRedirected) site is reachable only when GetRedirects() < config.MaxRedirect; the child's URL is built with Redirects = parent.GetRedirects()+1 and Hops = parent.GetHops(); GetRedirects reads that field", Run: ruleRedirectBound})
